@@ -31,7 +31,10 @@ func (p *c12) Exhaustive() bool { return true }
 
 // template names; "" kinds are inline sources run through the string loader
 var c12Names = []string{"t.html", "t.html.twig", "t.js", "t.js.twig", "t.css", "t.txt", "t", "t.twig", "t.xml", "t.foo.twig", "t.url", "t.html_attr",
-	"a.b/c", "dir.d/page", "t.HTML", "t.json", "t.txt.twig", "app.min.js", "app.bundle.js.twig", "theme.dark.css", "notes.2024.txt.twig", "v1.2/page", "lib.js/readme", "inline:plain", "inline:dot", "inline:dotmid", "inline:ends-txt", "inline:ends-js", "inline:ends-css-twig"}
+	"a.b/c", "dir.d/page", "t.HTML", "t.json", "t.txt.twig", "app.min.js", "app.bundle.js.twig", "theme.dark.css", "notes.2024.txt.twig", "v1.2/page", "lib.js/readme",
+	// file names with characters that also occur in delimiters: still file names
+	"sale-50%.js", "my%20script.js.twig", "theme{dark}.css", "terms-100%.txt", "a{b.js", "c}}d.css", "#notes.txt", "50%{x}.html_attr",
+	"inline:plain", "inline:dot", "inline:dotmid", "inline:ends-txt", "inline:ends-js", "inline:ends-css-twig"}
 
 var c12Payloads = []string{
 	"<script>alert(1)</script>", "' onmouseover='alert(1)", "\"", "&amp; & &lt;", "</style><b>", "a b", "javascript:alert(1)//", "é😀<i>", "plain", "x;y(z)=1/2\\3\n4",
